@@ -7,7 +7,7 @@ package main
 // the pretty printer reads, so that the printer model does not depend on a model
 // of the lexer/parser:
 //
-//	payload: <src-hex> <ev:0|1> <node>
+//	payload: <src-hex> <flags: 1 = evaluate, 2 = run tool.FormatFiles> <node>
 //	node   : Z                                                      (nil child)
 //	       | N <name-hex> <binding> <ld:0|1> <tok> <nmeta> {<P|Q|O> <val-hex>}* <nchildren> <node>*
 //	tok    : - | T <id> <val-hex> <raw:0|1> <identifier:0|1> <prefixNewlines> <line> <col>
@@ -15,7 +15,7 @@ package main
 // (binding / leftDenotation are unexported fields of parser.ASTNode; they are read
 // by reflection. raw = !AllowEscapes.)
 //
-//	result : txt=<hex of PrettyPrint(ast)> rt=ok|diff|noparse idem=ok|diff|na [beh=ok|diff]
+//	result : txt=<hex of PrettyPrint(ast)> rt=ok|diff|noparse|* idem=ok|diff|na|* [ff=ok|diff|…] [beh=ok|diff]
 //
 // rt   : Go re-parses its own output; trees compared by c08Equal (ignores positions,
 //        comments, blank lines; includes names, values, nesting, raw-vs-interpolating kind).
@@ -27,12 +27,14 @@ import (
 	"fmt"
 	"math"
 	"os"
+	"path/filepath"
 	"reflect"
 	"sort"
 	"strconv"
 	"strings"
 	"time"
 
+	"github.com/krotik/ecal/cli/tool"
 	"github.com/krotik/ecal/parser"
 	"github.com/krotik/ecal/util"
 )
@@ -80,14 +82,17 @@ func b2i(b bool) int {
 }
 
 // c08Payload parses src with the real parser; ok=false when it does not parse.
-func c08Payload(src string, ev bool) (string, bool) {
+func c08Payload(src string, ev bool) (string, bool) { return c08PayloadF(src, ev, false) }
+
+// c08PayloadF: flags field = 1 (evaluate both versions) + 2 (also run tool.FormatFiles on a scratch file)
+func c08PayloadF(src string, ev bool, ff bool) (string, bool) {
 	ast, err := c08Parse(src)
 	if err != nil || ast == nil {
 		return "", false
 	}
 	var sb strings.Builder
 	sb.WriteString(hx(src))
-	fmt.Fprintf(&sb, " %d", b2i(ev))
+	fmt.Fprintf(&sb, " %d", b2i(ev)+2*b2i(ff))
 	c08Ser(ast, &sb)
 	return sb.String(), true
 }
@@ -504,10 +509,109 @@ func c08Sig(ast *parser.ASTNode, txt string) string {
 	return strings.Join(f, "+")
 }
 
+// c08HasNewline: the printed text of the subtree contains a newline (structural: blank line, block
+// comment, multi-line list / map, any block)
+func c08HasNewline(n *parser.ASTNode) bool {
+	return c08Any(n, func(x *parser.ASTNode) bool {
+		if x.Token != nil && x.Token.PrefixNewlines > 1 {
+			return true
+		}
+		for _, m := range x.Meta {
+			if m.Type() == parser.MetaDataPreComment {
+				return true
+			}
+		}
+		switch x.Name {
+		case parser.NodeLIST:
+			return len(x.Children) > 4
+		case parser.NodeMAP:
+			return len(x.Children) > 2
+		case parser.NodeSTATEMENTS, parser.NodeFUNC, parser.NodeIF, parser.NodeLOOP, parser.NodeTRY, parser.NodeMUTEX, parser.NodeSINK:
+			return true
+		}
+		return false
+	})
+}
+
+// c08PostfixAfterNewline: in an identifier chain a composition access `[…]` follows a call / access whose
+// text spans lines: the `[` is no longer on the line of the identifier and is read as a new list statement.
+func c08PostfixAfterNewline(n *parser.ASTNode) bool {
+	var chain func(x *parser.ASTNode, seen *bool) bool
+	chain = func(x *parser.ASTNode, seen *bool) bool {
+		for _, c := range x.Children {
+			if c == nil {
+				continue
+			}
+			switch c.Name {
+			case parser.NodeCOMPACCESS:
+				if *seen {
+					return true
+				}
+				if c08HasNewline(c) {
+					*seen = true
+				}
+			case parser.NodeFUNCCALL:
+				if c08HasNewline(c) {
+					*seen = true
+				}
+			case parser.NodeIDENTIFIER:
+				if chain(c, seen) {
+					return true
+				}
+			}
+		}
+		return false
+	}
+	return c08Any(n, func(x *parser.ASTNode) bool {
+		if x.Name != parser.NodeIDENTIFIER {
+			return false
+		}
+		seen := false
+		return chain(x, &seen)
+	})
+}
+
+var c08Dir string
+
+// c08FormatFile runs the in-place format tool on a scratch file: ok = the file now holds exactly
+// PrettyPrint's text plus a newline.
+func c08FormatFile(src, txt string) string {
+	if c08Dir == "" {
+		d, err := os.MkdirTemp(".", "c08-format-")
+		if err != nil {
+			return "nodir"
+		}
+		c08Dir = d
+	}
+	path := filepath.Join(c08Dir, "t.ecal")
+	other := filepath.Join(c08Dir, "t.txt")
+	if os.WriteFile(path, []byte(src), 0644) != nil || os.WriteFile(other, []byte(src), 0644) != nil {
+		return "nowrite"
+	}
+	defer os.Remove(path)
+	defer os.Remove(other)
+	if err := tool.FormatFiles(c08Dir, ".ecal"); err != nil {
+		return "error"
+	}
+	data, err := os.ReadFile(path)
+	if err != nil {
+		return "noread"
+	}
+	odata, _ := os.ReadFile(other)
+	if string(odata) != src {
+		return "other-file-touched"
+	}
+	if string(data) != txt+"\n" {
+		return "diff"
+	}
+	return "ok"
+}
+
 func c08Run(payload string) string {
 	f := strings.SplitN(payload, " ", 3)
 	src := unhx(f[0])
-	ev := f[1] == "1"
+	ev := f[1] == "1" || f[1] == "3"
+	ff := f[1] == "2" || f[1] == "3"
 	ast, err := parser.Parse("t", src)
 	if err != nil {
 		return "SRC-NOPARSE " + oneLine(err.Error())
@@ -517,7 +621,7 @@ func c08Run(payload string) string {
 		return "PPERR " + oneLine(err.Error())
 	}
 	inside, ownBlank := c08Inside(ast, true)
-	rtWild := c08UnstablePost(ast, txt) || inside
+	rtWild := c08UnstablePost(ast, txt) || inside || c08PostfixAfterNewline(ast)
 	idemWild := rtWild || ownBlank || c08HasPre(ast) || c08BlockThenStatement(ast)
 	sig := c08Sig(ast, txt)
 	rt, idem := "ok", "na"
@@ -550,6 +654,9 @@ func c08Run(payload string) string {
 		idem = "*"
 	}
 	res := "txt=" + hx(txt) + " rt=" + rt + " idem=" + idem
+	if ff {
+		res += " ff=" + c08FormatFile(src, txt)
+	}
 	if ev && rt != "noparse" && rt != "*" {
 		same := c08Behaviour(src) == c08Behaviour(txt)
 		if rt == "ok" {
